@@ -76,6 +76,8 @@ fn run_case(out: &mut Out, run: usize, case: &Value) {
             }
         });
         if r.is_err() { panicked = true; break; }
+        // a source that stays silent for a while (wall-clock): the engine must still be there afterwards
+        if let Some(ms) = p.get("pause_ms").and_then(|x| x.as_u64()) { std::thread::sleep(Duration::from_millis(ms)); }
         if multi {
             // how eagerly the feeder runs ahead of the workers is part of the schedule
             match rng.below(6) { 0 => std::thread::sleep(Duration::from_micros(300)), 1 => std::thread::yield_now(), 2 => std::thread::sleep(Duration::from_millis(2)), _ => {} }
